@@ -26,6 +26,11 @@ class TeeProcessor:
     def _tee_pipe_run(
         self, pipe: IO[bytes], stream: TextIO, file_name: pathlib.Path
     ) -> None:
+        # Forwarding stops working when Conductor's own stdout/stderr is closed
+        # or nobody reads it any more (e.g., `cond run ... | head`). The task's
+        # output must still be drained and recorded: otherwise the log is
+        # truncated and the task blocks forever once the pipe is full.
+        forward = True
         with open(file_name, "wb") as file:
             while True:
                 # Read up to 4096 bytes at a time, but return as soon as we read
@@ -35,7 +40,15 @@ class TeeProcessor:
                     # End of the stream.
                     break
                 file.write(data)
-                stream.buffer.write(data)
-                # Needed to maintain interactivity.
-                stream.flush()
-            stream.flush()
+                if forward:
+                    try:
+                        stream.buffer.write(data)
+                        # Needed to maintain interactivity.
+                        stream.flush()
+                    except (OSError, ValueError, AttributeError):
+                        forward = False
+            if forward:
+                try:
+                    stream.flush()
+                except (OSError, ValueError, AttributeError):
+                    pass
